@@ -89,6 +89,11 @@ enum Load {
     /// task: TWO concurrent producers (actors 0 and PROD_B, as the stdout and stderr pumps of a pipes task are) emit `k`
     /// output frames each through clones of one real `TaskEmitter` (`ripd::verif::build_app_with_task_driver`)
     TwoProducers(u64),
+    /// thread: TWO producers (actors 0 and PROD_B) post one message each to the SAME thread.  There is no try_lock probe
+    /// for the continuity seq mutex behind the router, so these cases PROBE it: PROD_B is granted at `cont.before_lock`
+    /// even while producer 0 sits inside its append.  With today's lock span PROD_B just blocks (the scheduler reports it
+    /// in flight after its step timeout and goes on; the case is then oracle-only); with a narrowed span it overtakes.
+    MessagesTwo,
 }
 impl Load {
     fn label(&self) -> String {
@@ -100,6 +105,7 @@ impl Load {
             Load::TaskCmd(k) => format!("taskcmd{k}"),
             Load::Messages(m) => format!("messages{m}"),
             Load::TwoProducers(k) => format!("twoproducers{k}"),
+            Load::MessagesTwo => "messagestwo".into(),
         }
     }
     fn to_json(&self) -> serde_json::Value {
@@ -111,6 +117,7 @@ impl Load {
             Load::TaskCmd(k) => json!({"load": "taskcmd", "k": k}),
             Load::Messages(m) => json!({"load": "messages", "k": m}),
             Load::TwoProducers(k) => json!({"load": "twoproducers", "k": k}),
+            Load::MessagesTwo => json!({"load": "messagestwo"}),
         }
     }
     fn from_json(v: &serde_json::Value) -> Option<Load> {
@@ -123,6 +130,7 @@ impl Load {
             "taskcmd" => Load::TaskCmd(k),
             "messages" => Load::Messages(k),
             "twoproducers" => Load::TwoProducers(k),
+            "messagestwo" => Load::MessagesTwo,
             _ => return None,
         })
     }
@@ -261,6 +269,8 @@ struct Ctl {
     guard: bool,
     /// two producers on one stream (Load::TwoProducers): mutexes are handled by the probes in `enabled`
     multi: bool,
+    /// Load::MessagesTwo: do not defer an actor parked at `cont.before_lock` to the believed holder of the mutex
+    probe_locks: bool,
     /// continuity seq mutex: who is between `cont.locked` and the return that follows `cont.advanced` / `cont.setnext`
     holder: Option<usize>,
     releasing: Option<usize>,
@@ -385,7 +395,7 @@ impl Ctl {
                             }
                         }
                     }
-                    if p == "cont.before_lock" {
+                    if p == "cont.before_lock" && !self.probe_locks {
                         if let Some(h) = self.holder {
                             if h != want && parked(h).is_some() {
                                 break h; // the continuity seq mutex is taken: let its holder leave the critical section
@@ -672,6 +682,36 @@ fn run_case(env: &mut Env, c: &Case) -> Outcome {
             done.store(true, std::sync::atomic::Ordering::SeqCst);
         });
     }
+    // ---- a second producer on the SAME thread (Load::MessagesTwo)
+    if c.kind == Kind::Thread && c.load == Load::MessagesTwo {
+        let app = app.clone();
+        let sid = stream_id.clone();
+        let data = data.clone();
+        let done = producer_b_done.clone();
+        done.store(false, std::sync::atomic::Ordering::SeqCst);
+        sched.spawn(PROD_B, move || {
+            let rt = new_rt();
+            let finished = rt.block_on(async move {
+                let deadline = Instant::now() + Duration::from_secs(120);
+                let id = sid.lock().unwrap().clone().unwrap();
+                let (st, _) = call_json(&app, req("POST", &format!("/threads/{id}/messages"), Some(json!({"content": "b"})))).await;
+                assert_eq!(st, 202);
+                loop {
+                    let frames = stream_frames(&data, &id, true);
+                    let posted = frames.iter().filter(|(_, t)| t == "continuity_message_appended").count() as u64;
+                    let ended = frames.iter().filter(|(_, t)| t == "continuity_run_ended").count() as u64;
+                    if ended >= posted && posted > 0 {
+                        break true;
+                    }
+                    if Instant::now() >= deadline {
+                        break false;
+                    }
+                    tokio::time::sleep(Duration::from_millis(1)).await;
+                }
+            });
+            done.store(finished, std::sync::atomic::Ordering::SeqCst);
+        });
+    }
     // ---- the producer of OTHER streams on the same channel (thread kind: every thread shares the continuity channel)
     if c.kind == Kind::Thread && c.others > 0 {
         let app = app.clone();
@@ -722,7 +762,7 @@ fn run_case(env: &mut Env, c: &Case) -> Outcome {
     }
     drop(tx);
 
-    let ctl = std::cell::RefCell::new(Ctl { kind: c.kind, prefix: c.sched.clone(), pos: 0, prev: None, guard: false, multi: matches!(c.load, Load::TwoProducers(_)), holder: None, releasing: None, log_holder: None, events: vec![], p_trace: vec![] });
+    let ctl = std::cell::RefCell::new(Ctl { kind: c.kind, prefix: c.sched.clone(), pos: 0, prev: None, guard: false, multi: matches!(c.load, Load::TwoProducers(_)), probe_locks: c.load == Load::MessagesTwo, holder: None, releasing: None, log_holder: None, events: vec![], p_trace: vec![] });
     let sid_probe = stream_id.clone();
     let probe = driver.clone();
     let sub_point = c.kind.sub_point();
@@ -1174,6 +1214,18 @@ fn main() {
                 }
                 cases.push(Case { kind: *kind, load: load.clone(), subs, sched: s, others: r.range(1, 2) as usize, reads: r.range(0, 2) as usize });
             }
+        }
+    }
+
+    // ---- two producers on one THREAD, probing the continuity seq mutex (each probe costs one scheduler step timeout on
+    // today's code, so only a few): producer 0 is parked inside its append (after `a` steps), PROD_B tries to append
+    {
+        let a_steps: Vec<usize> = if thorough { vec![2, 3, 8, 9, 20, 33, 34] } else { vec![2, 9, 34] };
+        for a_ in a_steps {
+            let mut s = vec![0; a_];
+            s.extend(vec![PROD_B; 45]);
+            s.extend([1, 1]);
+            cases.push(Case { kind: Kind::Thread, load: Load::MessagesTwo, subs: 1, sched: s, others: 0, reads: 0 });
         }
     }
 
